@@ -75,7 +75,11 @@ func newEnv(cfg map[string]interface{}, variant int) *env {
 		for i, v := range vals {
 			pre[i] = v.Copy()
 		}
-		pre[variant%e.n].VotingPower += 5
+		if (variant/3)%2 == 0 {
+			pre[variant%e.n].VotingPower += 5 // the member's power is LOWERED by the Update
+		} else {
+			pre[variant%e.n].VotingPower = 0 // ... or RAISED by it (a stale total would be too small: sub-quorum commits)
+		}
 		e.valSet = types.NewValidatorSet(pre)
 		e.valSet.TotalVotingPower() // populate the cache before the change
 		e.valSet.Update(vals[variant%e.n])
@@ -348,6 +352,7 @@ func main() {
 				Kind: kind, Property: prop, Key: key, Detail: detail, Want: want, Got: got})
 		}
 		aborted := false
+		drifted := false
 		for si, st := range tr.Steps {
 			if aborted {
 				break
@@ -404,8 +409,13 @@ func main() {
 				aborted = true
 			}
 			if ks := mbt.DiffKeys(mbt.Norm(wInt).(map[string]interface{}), mbt.Canon(gotInt).(map[string]interface{})); len(ks) > 0 {
-				fail(si, st, "mismatch", false, "internal:"+ks[0], fmt.Sprintf("internal state differs on %v", ks), wInt, gotInt)
-				aborted = true
+				// drift on unexported bookkeeping is not a verdict by itself; the behaviour is followed further so that an
+				// observable consequence (a wrong AddVote result, a missing majority, a wrong bit array) becomes one
+				if !drifted {
+					fail(si, st, "mismatch", false, "internal:"+ks[0], fmt.Sprintf("internal state differs on %v", ks), wInt, gotInt)
+					drifted = true
+					rep.Count("followed_after_internal_drift")
+				}
 			}
 			// derived public predicates, against the spec's sum
 			sum := int64(mbt.Int(st.Post["sum"]))
@@ -442,6 +452,8 @@ func main() {
 						fail(si, st, "panic", true, "MakeCommit-panic", fmt.Sprintf("%v\n%s", p, stack), nil, nil)
 					} else if verr != nil {
 						fail(si, st, "property", true, "CommitVerifies", "commit assembled from the majority fails VerifyCommit: "+verr.Error(), nil, nil)
+					} else if !(3*pw > 2*e.total) {
+						fail(si, st, "property", true, "VerifyCommitQuorum", fmt.Sprintf("VerifyCommit accepted the commit assembled for %s although it carries only %d/%d of the voting power", name, pw, e.total), nil, nil)
 					}
 				}
 			} else {
